@@ -898,11 +898,20 @@ pub fn json_diagram_sized(d: &mut Decider, large: bool) -> GSpec {
         }
     }
     // scalar
+    // magnitudes far from 1 for the general (not sqrt2^p * omega^k) classes too: |s| down to 2^-1000
+    // and up to 2^1000, as the scalar of a diagram with a few thousand Hadamard edges has
+    let far = |d: &mut Decider, near: i64| -> i32 {
+        match d.choose("j.sp.class", 12) {
+            0 => d.range("j.sp.huge", -2000, 2000) as i32,
+            1 | 2 => d.range("j.sp.big", -600, 600) as i32,
+            _ => d.range("j.sp", -near, near) as i32,
+        }
+    };
     match d.choose("j.scal", 8) {
         0 => {}
         6 => {
             // exact, but not a power of sqrt2 times a power of omega: small integer combinations
-            g.sqrt2_pow = d.range("j.sp", -4, 4) as i32;
+            g.sqrt2_pow = far(d, 4);
             loop {
                 g.int_factor = [d.range("j.i0", -3, 3), d.range("j.i1", -2, 2), d.range("j.i2", -3, 3), d.range("j.i3", -2, 2)];
                 if g.int_factor != [0, 0, 0, 0] {
@@ -921,7 +930,7 @@ pub fn json_diagram_sized(d: &mut Decider, large: bool) -> GSpec {
             g.omega_pow = d.range("j.sk", 0, 7);
         }
         3 | 4 => {
-            g.sqrt2_pow = d.range("j.sp", -6, 6) as i32;
+            g.sqrt2_pow = far(d, 6);
             g.omega_pow = d.range("j.sk", 0, 7);
             let k = 1 + d.choose("j.nop", 4);
             for _ in 0..k {
@@ -932,7 +941,7 @@ pub fn json_diagram_sized(d: &mut Decider, large: bool) -> GSpec {
             }
         }
         _ => {
-            g.sqrt2_pow = d.range("j.sp", -3, 3) as i32;
+            g.sqrt2_pow = far(d, 3);
             let k = 1 + d.choose("j.nop", 3);
             for _ in 0..k {
                 let den = *d.pick("j.opd", &[3, 5, 8, 16, 7]);
